@@ -19,7 +19,12 @@ def scene():
     data = np.zeros((40, 50))
     pos = [(10, 9), (25, 12), (38, 27), (14, 30)]
     for k, (px, py) in enumerate(pos):
+        if k == 2:
+            continue
         data += (50 + 20 * k) * np.exp(-0.5 * (((x - px) / 2.0) ** 2 + ((y - py) / (1.5 + 0.3 * k)) ** 2))
+    # the third source is a one-pixel-high streak: fits that need a 3 x 3 neighbourhood (quadratic centroid) have to fall back for it, and
+    # what they fall back to is a per-source matter
+    data[27, 34:43] += np.array([30, 45, 60, 80, 95, 80, 60, 45, 30.0])
     data += np.random.default_rng(0).normal(0, 0.3, data.shape)
     with warnings.catch_warnings():
         warnings.simplefilter('ignore')
